@@ -1,6 +1,8 @@
 import Firebolt.Properties.C01
 import Firebolt.Properties.ExecFlow
 import Firebolt.Properties.ExecNet
+import Firebolt.Generated.Source
+import Firebolt.Expected.Source
 /-!
 # C16 — Per-node metrics account for every event exactly once
 Denotational part; the counter invariant under every interleaving is in `Properties/Exec*.lean`.
@@ -71,5 +73,10 @@ theorem tree_counters_any_global_schedule (cfg : Path → Cfg) (caps : Path → 
   obtain ⟨hG, hcfg, _⟩ := reachable_ginv cfg caps disc sched N hr
   subst hcfg
   exact tree_counters N hG p ht
+
+
+/-! ### functions the model's assumptions rest on (construction, wiring, surrounding calls) are unchanged -/
+theorem source_invokeProcessorSync : GeneratedSrc.invokeProcessorSync = ExpectedSrc.invokeProcessorSync := by rfl
+theorem source_invokeProcessorFanout : GeneratedSrc.invokeProcessorFanout = ExpectedSrc.invokeProcessorFanout := by rfl
 
 end Firebolt.C16
